@@ -54,13 +54,29 @@ Fixpoint ins_by_value (p : Z * nat) (l : list (Z * nat)) : list (Z * nat) :=
 Definition items_by_value (d : zdict nat) : zdict nat := fold_right ins_by_value [] d.
 Definition is_empty {A} (l : list A) : bool := match l with [] => true | _ => false end.
 
-(* the statements of merge after the empty-result refusals (pinned by AST hash): the index
-   look-ups, the two metadata loops, the vector loop and the constructor call, with the meaning
-   Model/Merge.v gives them (merged_row, merged_md).  The (id, index) pairs are numbered
-   0, 1, 2, ... in list order (proved for the pairs the translated prefix hands over), so
-   "place at index" is "place at position". *)
-Definition merge_build (self other : table) (sord oord : zdict nat) (fs fo : option mdf) : result table :=
-  let sids' := map fst sord in
-  let oids' := map fst oord in
-  ROk (mkT oids' sids' (map (merged_row self other sids') oids')
-           (merged_md (f_or_drop fo) Obs self other oids') (merged_md (f_or_drop fs) Samp self other sids') NOTYPE).
+(* t._obs_index / t._sample_index: the dictionary id -> position; the model keeps the id list and
+   looks positions up in it (Table.pos) *)
+Definition tb_obs_index (t : table) : list Z := oids t.
+Definition tb_sample_index (t : table) : list Z := sids t.
+(* t.exists(id, axis) *)
+Definition tb_exists (t : table) (id : Z) (ax : axis) : bool := zmem id (ids ax t).
+(* md[index[id]] behind the guard "md is not None and the id exists" (no KeyError there): the
+   stored entry, as Table.md_of reads it *)
+Definition md_subscript (md : option (list Tree)) (index : list Z) (id : Z) : option Tree :=
+  match md, pos id index with Some l, Some i => nth_error l i | _, _ => None end.
+(* f(x, y) for a metadata function; calling None is a TypeError *)
+Definition mdf_call (f : option mdf) (x y : option Tree) : result (option Tree) :=
+  match f with Some g => ROk (g x y) | None => RErr E_TYPE end.
+
+(* pinned region (AST hash): vec_length and the loop over the new observation order that fills
+   vals, with the meaning Model/Merge.v gives it (merged_row).  The (id, index) pairs are numbered
+   0, 1, 2, ... in list order (proved for the pairs the translated code hands over), so "place at
+   index" is "place at position".  The pre-computed sample orders and the placeholder list of the
+   other pinned region are consumed only here. *)
+Definition merge_vectors (self other : table) (sord oord : zdict nat) : list (list Z) :=
+  map (merged_row self other (map fst sord)) (map fst oord).
+(* self.__class__(self._conv_to_self_type(vals), obs_ids[:], sample_ids[:], obs_md, sample_md):
+   the plain constructor (Orient.ctor_md on the metadata lists, None entries included), no type *)
+Definition tb_construct (vals : list (list Z)) (obs_ids sample_ids : list Z)
+                        (obs_md sample_md : list (option Tree)) : table :=
+  mkT obs_ids sample_ids vals (ctor_md (Some (map entry_of obs_md))) (ctor_md (Some (map entry_of sample_md))) NOTYPE.
